@@ -191,6 +191,8 @@ int pthread_mutex_lock(pthread_mutex_t *m) {
 int pthread_mutex_unlock(pthread_mutex_t *m) {
     resolve();
     int r = real_unlock(m);
+    /* whoever was waiting for a lock may try again: nobody is known to be blocked any more */
+    for (int i = 0; i < SCH_MAXT; ++i) g_spinning[i] = 0;
     if (t_id >= 0 && g_mode != MODE_FREE && !t_inside) {
         t_inside = 1;
         sch_point();
